@@ -18,6 +18,7 @@ VERIF = os.path.dirname(os.path.dirname(os.path.abspath(__file__)))
 PY = os.environ.get('VERIF_PYTHON', '/venv/bin/python')
 REPO = os.environ.get('VERIF_REPO', '/repo')
 DEPS = os.path.join(VERIF, '.deps')
+STATE_CAP = 4_000_000  # distinct-state digests kept exactly; beyond that the count is a lower bound
 OUT = os.environ.get('VERIF_OUT', VERIF)  # evidence/ and replays/ go here (scratch dir for mutant self-tests)
 WHEELS = '/opt/veriftools/wheels'
 
@@ -108,6 +109,7 @@ def check(prop, tier, seed, jobs, max_report=3):
     agg = {'runs': 0, 'ops': 0, 'outcomes': Counter(), 'scheduled': Counter(), 'fired': Counter(), 'probes': Counter(),
            'peer_calls': Counter(), 'cross': Counter(), 'virtual_s': 0.0}
     states = set()
+    state_overflow = False
     errors = []
     viol = []  # (batch, entry)
     samples = []
@@ -122,7 +124,10 @@ def check(prop, tier, seed, jobs, max_report=3):
         for k in ('outcomes', 'scheduled', 'fired', 'probes', 'peer_calls', 'cross'):
             agg[k].merge(r[k])
         agg['virtual_s'] += r['virtual_s']
-        states.update(r['states'])
+        if len(states) < STATE_CAP:
+            states.update(r['states'])
+        else:
+            state_overflow = True
         for he in r['harness_errors']:
             errors.append({'batch': b, **he})
         for v in r['viol_runs']:
@@ -173,7 +178,7 @@ def check(prop, tier, seed, jobs, max_report=3):
         lines.append(f"  (further unlisted signature, not minimised: {sig}, {len(unknown[sig])} runs)")
     wall_s = time.time() - t0
     harness_fail = bool(errors) or bool(unconfirmed)
-    write_evidence(prop, tier, seed, agg, states, samples, known_hit, unknown, reported, errors, wall_s, hashseeds, unconfirmed, jobs)
+    write_evidence(prop, tier, seed, agg, states, samples, known_hit, unknown, reported, errors, wall_s, hashseeds, unconfirmed, jobs, state_overflow)
     for l in lines:
         print(l)
     rate = agg['runs'] / wall_s if wall_s else 0
@@ -251,7 +256,7 @@ def replay(prop, path):
     return 0
 
 
-def write_evidence(prop, tier, seed, agg, states, samples, known_hit, unknown, reported, errors, wall_s, hashseeds, unconfirmed, jobs):
+def write_evidence(prop, tier, seed, agg, states, samples, known_hit, unknown, reported, errors, wall_s, hashseeds, unconfirmed, jobs, state_overflow):
     from .world import real_components
     from .rules import RULES, ASSUMPTIONS
 
@@ -259,6 +264,7 @@ def write_evidence(prop, tier, seed, agg, states, samples, known_hit, unknown, r
     cov = {
         'evaluations': runs,
         'distinct_nontrivial': len(states),
+        'distinct_nontrivial_is_lower_bound': bool(state_overflow),
         'rule': RULES.get(prop, RULES['default']),
         'samples': samples or [{'note': 'no clean sample collected'}],
         'exhaustive': False,
